@@ -289,6 +289,18 @@ int main(int argc, char **argv) {
       line("W " + std::to_string(me) + " AFTER : " + std::to_string(S4.size()) + " " + std::to_string(T4.size()));
       world.cf_barrier();
     }
+    // ---- counting_set (C15): long runs of one key inside one epoch (the cached count must not wrap or saturate silently) ----
+    {
+      counting_set<long> CS2(world);
+      const long         reps = 70000;
+      for (long i = 0; i < reps; ++i) CS2.async_insert(9000 + me);          // a key per rank, 70000 times
+      for (long i = 0; i < 33000; ++i) CS2.async_insert(8888);              // one key from every rank, 33000 times each
+      world.barrier();
+      std::string s = "W " + std::to_string(me) + " CS2 :";
+      for (auto &kv : CS2.m_map.m_impl.m_local_map) s += " " + std::to_string(kv.first) + "=" + std::to_string(kv.second);
+      line(s);
+      world.cf_barrier();
+    }
     // ---- reduce_by_key_map (C16): over a rank-local vector of pairs (colliding cache slots) and over a distributed map ----
     {
       const long keys[5] = {0, 1, 1048576, 99, 2097153};
@@ -394,6 +406,43 @@ int main(int argc, char **argv) {
         line(s);
       };
       dumpsm("SM", SM); dumpsm("SM2", SM2);
+      {
+        // values whose text form is delicate: doubles that need all 17 significant digits, strings that need JSON escaping
+        bag<double>           BD(world), BD2(world);
+        map<long, double>     MD(world, 0.5), MD2(world, 0.25);
+        set<std::string>      SS(world), SS2(world);
+        const double tricky[] = {0.1 + 0.2, 1.0 / 3.0, 2.0 / 3.0, 0.7 * 0.1, 1e-20, 1e30, 123456789.123456789, -0.0, 5e-324, 1.7976931348623157e308};
+        const char  *strs[]   = {"a\"b", "back\\slash", "new\nline", "tab\there", "uni\xc3\xa9", "", "sp ace", "{\"k\":[1,2]}", "\x01\x1f"};
+        if (me == 0) {
+          long k = 0;
+          for (double d : tricky) { BD.async_insert(d); MD.async_insert(k++, d); }
+          for (const char *c : strs) SS.async_insert(std::string(c));
+        }
+        BD2.async_insert(42.0);
+        BD.serialize(base + "BD"); MD.serialize(base + "MD"); SS.serialize(base + "SS");
+        BD2.deserialize(base + "BD"); MD2.deserialize(base + "MD"); SS2.deserialize(base + "SS");
+        world.barrier();
+        auto hexd = [](double d) { char b[64]; snprintf(b, sizeof b, "%a", d); return std::string(b); };
+        auto dbag = [&](const std::string &tag, auto &b) {
+          std::string s = "Z " + std::to_string(me) + " " + tag + " :";
+          for (auto &d : b.m_local_bag) s += " " + hexd(d);
+          line(s);
+        };
+        dbag("BD", BD); dbag("BD2", BD2);
+        auto dmd = [&](const std::string &tag, auto &m) {
+          std::string s = "Z " + std::to_string(me) + " " + tag + " dflt=" + hexd(m.m_impl.m_default_value) + " :";
+          for (auto &kv : m.m_impl.m_local_map) s += " " + std::to_string(kv.first) + "=" + hexd(kv.second);
+          line(s);
+        };
+        dmd("MD", MD); dmd("MD2", MD2);
+        auto dss = [&](const std::string &tag, auto &m) {
+          std::string s = "Z " + std::to_string(me) + " " + tag + " :";
+          for (auto &k : m.m_impl.m_local_set) s += " " + hex(k);
+          line(s);
+        };
+        dss("SS", SS); dss("SS2", SS2);
+        world.cf_barrier();
+      }
       line("Q 0 " + std::to_string(me) + " M2.size : " + std::to_string(M2.size()) + " " + std::to_string(M.size()));
     }
   }
